@@ -1,0 +1,46 @@
+//go:build verif
+
+package main
+
+// Verification hook (build tag "verif" only; not compiled otherwise): when VERIF_RAND_SEED is
+// set, crypto/rand.Reader is replaced by a deterministic stream so that process-level
+// simulated runs (setup, prove) are reproducible. Without the variable nothing changes.
+
+import (
+	crand "crypto/rand"
+	"crypto/sha256"
+	"encoding/binary"
+	"os"
+	"sync"
+)
+
+type verifStream struct {
+	mu    sync.Mutex
+	seed  [32]byte
+	ctr   uint64
+	block []byte
+}
+
+func (s *verifStream) Read(p []byte) (int, error) {
+	s.mu.Lock()
+	defer s.mu.Unlock()
+	for i := range p {
+		if len(s.block) == 0 {
+			var in [40]byte
+			copy(in[:32], s.seed[:])
+			binary.BigEndian.PutUint64(in[32:], s.ctr)
+			s.ctr++
+			h := sha256.Sum256(in[:])
+			s.block = h[:]
+		}
+		p[i] = s.block[0]
+		s.block = s.block[1:]
+	}
+	return len(p), nil
+}
+
+func init() {
+	if v := os.Getenv("VERIF_RAND_SEED"); v != "" {
+		crand.Reader = &verifStream{seed: sha256.Sum256([]byte(v))}
+	}
+}
